@@ -654,6 +654,120 @@ Theorem C06G_reaches_lockstep_unfold : forall R0,
 Proof. exact (fun R0 => iff_refl _). Qed.
 Print Assumptions C06G_reaches_lockstep_unfold.
 
+(* ---- the weaker lockstep: block n may have been voted in an earlier view ---- *)
+(* every honest node waits in view V with its block store at n; no good commit certificate for a
+   number >= n is known; honest high votes are for blocks up to n (so block n may have been voted
+   in a view that did not complete), honest high commit certificates are for block n-1; the network
+   holds the single proposal of an honest leader of V -- the new block n, or the forced
+   re-proposal of a voted block n -- or no verifying proposal for V if the leader is Byzantine *)
+Theorem C06G_wlockstep_unfold : forall P pay s V n,
+  wlockstep P pay s V n <->
+  (p_first P <= n /\
+   (forall k, honestb P k = true ->
+      up s k /\ hview s k = V /\ r_phase (n_live (g_node s k)) = Prepare /\ n <= r_store_next (n_live (g_node s k))) /\
+   ((forall q, ProtocolRefinesStep.gq (pcfg P 0) (honestb P) (g_soup s) q -> hnum (cprop (qmsg q)) < n) /\
+    (forall k, honestb P k = true ->
+       (forall c, r_high_vote (n_live (g_node s k)) = Some c -> hnum (cprop c) < n + 1) /\
+       ((n = p_first P /\ r_high_cqc (n_live (g_node s k)) = None) \/
+        exists q, r_high_cqc (n_live (g_node s k)) = Some q /\ hnum (cprop (qmsg q)) = n - 1))) /\
+   (honestb P (cleader (pcfg P 0) V) = true ->
+      proposal_on_network P pay s V n \/ exists h, reproposal_on_network P s V n h) /\
+   (honestb P (cleader (pcfg P 0) V) = false -> no_proposal P s V)).
+Proof. exact (fun P pay s V n => iff_refl _). Qed.
+Print Assumptions C06G_wlockstep_unfold.
+
+Theorem C06G_lockstep_weak : forall P pay s V n, lockstep P pay s V n -> wlockstep P pay s V n.
+Proof. exact (fun P pay s V n => lockstep_weak P pay (fun _ _ => None) s V n). Qed.
+Print Assumptions C06G_lockstep_weak.
+
+(* the block implied by a timeout certificate when nothing above block n is voted and nothing at
+   or above n is certified: number n (the new block, or the forced re-proposal of a voted one) *)
+Theorem C06G_implied_tidy_le : forall P, params_ok P -> forall n s tq,
+  preach P s -> tqc_verify (p_g P) (p_e P) (p_C P) tq = Ok tt ->
+  ProtocolRefinesStep.kt (honestb P) (g_soup s) tq ->
+  (forall q, ProtocolRefinesStep.gq (pcfg P 0) (honestb P) (g_soup s) q -> hnum (cprop (qmsg q)) < n) ->
+  (forall h m, honestb P h = true -> In {| m_key := h; m_sig_ok := true; m_msg := MTimeout m |} (g_soup s) ->
+     tview m = tqview tq -> tidy_report_b P n (n + 1) m) ->
+  p_first P <= n ->
+  forall n' oh, get_implied_block (E := unit) true (p_C P) (p_first P) (JTimeout tq) = Ok (n', oh) ->
+  n' = n.
+Proof. exact implied_tidy_le. Qed.
+Print Assumptions C06G_implied_tidy_le.
+
+(* a view with a Byzantine leader keeps the weak lockstep *)
+Theorem C06G_wlockstep_timeout : forall P, params_ok P -> forall pay fetch, env_ok P pay -> forall Bs s V n,
+  Bs + 1 < U64.U64 -> preach P s -> 0 < V -> p_first P + V + 2 < U64.U64 -> V + 1 <= Bs ->
+  (forall m, In m (g_soup s) -> msg_view (m_msg m) <= Bs) ->
+  wlockstep P pay s V n -> honestb P (cleader (pcfg P 0) V) = false ->
+  let s2 := sync_rounds P pay fetch 2 s in
+  preach P s2 /\ (forall m, In m (g_soup s2) -> msg_view (m_msg m) <= Bs) /\ wlockstep P pay s2 (V + 1) n.
+Proof. exact wlockstep_timeout. Qed.
+Print Assumptions C06G_wlockstep_timeout.
+
+(* progress from a weak lockstep state: Byzantine-leader views time out (two rounds each, weak
+   lockstep kept); the first honest leader's proposal -- a new block or the forced re-proposal,
+   whose payload some honest node still has (C06G_payload_available) and the others fetch
+   (H-FETCH over the rounds) -- gets block n stored by every honest node *)
+Theorem C06G_progress_from_wlockstep : forall P pay fetch (nbyz : nat), params_ok P -> env_ok P pay ->
+  forall s V n, preach P s -> headroom P s (Z.of_nat nbyz + 2) -> 0 < V -> wlockstep P pay s V n ->
+  byz_run P V nbyz -> fetch_ok_run P pay fetch s (2 * (nbyz + 1)) ->
+  exists r, (1 <= r <= nbyz + 1)%nat /\
+    forall k, honestb P k = true ->
+      up (sync_rounds P pay fetch (2 * r) s) k /\ n < height (sync_rounds P pay fetch (2 * r) s) k.
+Proof. exact progress_from_wlockstep_holds. Qed.
+Print Assumptions C06G_progress_from_wlockstep.
+
+(* progress from a mixed-phase state (some honest nodes have already timed out in view V): two
+   rounds later the network is in a weak lockstep state for view V+1 (C06G_view_times_out_mixed,
+   with the vote and certificate bounds carried along), and block n is stored by every honest
+   node within 2 + 2*(nbyz+1) rounds *)
+Theorem C06G_progress_from_mixed : forall P pay fetch (nbyz : nat), params_ok P -> env_ok P pay ->
+  forall s V n, preach P s -> headroom P s (Z.of_nat nbyz + 4) -> 0 < V -> p_first P <= n ->
+  unvoted P s V n -> no_proposal P s V -> timed_out_light P s V -> uncertified P s n ->
+  (forall k, honestb P k = true -> tidy_node_b P n (n + 1) (n_live (g_node s k))) ->
+  (forall h t, honestb P h = true -> In {| m_key := h; m_sig_ok := true; m_msg := MTimeout t |} (g_soup s) ->
+     vnum (tview t) = V -> tidy_report_b P n (n + 1) t) ->
+  byz_run P (V + 1) nbyz -> fetch_ok_run P pay fetch s (2 + 2 * (nbyz + 1)) ->
+  wlockstep P pay (sync_rounds P pay fetch 2 s) (V + 1) n /\
+  exists r, (1 <= r <= nbyz + 1)%nat /\
+    forall k, honestb P k = true ->
+      up (sync_rounds P pay fetch (2 + 2 * r) s) k /\ n < height (sync_rounds P pay fetch (2 + 2 * r) s) k.
+Proof. exact progress_from_mixed_holds. Qed.
+Print Assumptions C06G_progress_from_mixed.
+
+Theorem C06G_tidy_b_unfold : forall P n vb st m,
+  (tidy_node_b P n vb st <->
+   (forall c, r_high_vote st = Some c -> hnum (cprop c) < vb) /\
+   ((n = p_first P /\ r_high_cqc st = None) \/ exists q, r_high_cqc st = Some q /\ hnum (cprop (qmsg q)) = n - 1)) /\
+  (tidy_report_b P n vb m <->
+   (forall c, thv m = Some c -> hnum (cprop c) < vb) /\
+   ((n = p_first P /\ thq m = None) \/ exists q, thq m = Some q /\ hnum (cprop (qmsg q)) = n - 1)).
+Proof. exact (fun P n vb st m => conj (iff_refl _) (iff_refl _)). Qed.
+Print Assumptions C06G_tidy_b_unfold.
+
+(* reaching a weak lockstep state is enough for C06_progress_partial, and is implied by reaching
+   a lockstep state *)
+Theorem C06G_reaches_wlockstep_unfold : forall R0,
+  ProtocolLiveGoals.C06_reaches_wlockstep R0 <->
+  (forall P pay fetch (nbyz : nat), params_ok P -> env_ok P pay -> forall s, preach P s ->
+   headroom P s (2 * Z.of_nat nbyz + Z.of_nat R0 + 4) ->
+   fetch_ok_run P pay fetch s (2 * nbyz + R0 + 2) ->
+   (forall V, byz_run P V nbyz) ->
+   exists V n, 0 < V /\ wlockstep P pay (sync_rounds P pay fetch R0 s) V n /\
+               headroom P (sync_rounds P pay fetch R0 s) (Z.of_nat nbyz + 2)).
+Proof. exact (fun R0 => iff_refl _). Qed.
+Print Assumptions C06G_reaches_wlockstep_unfold.
+
+Theorem C06G_reaches_lockstep_weak : forall R0,
+  ProtocolLiveGoals.C06_reaches_lockstep R0 -> ProtocolLiveGoals.C06_reaches_wlockstep R0.
+Proof. exact reaches_lockstep_weak. Qed.
+Print Assumptions C06G_reaches_lockstep_weak.
+
+Theorem C06G_progress_partial_of_reaches_wlockstep :
+  ProtocolLiveGoals.C06_reaches_wlockstep 4 -> ProtocolLiveGoals.C06_progress_partial.
+Proof. exact progress_partial_of_reaches_wlockstep. Qed.
+Print Assumptions C06G_progress_partial_of_reaches_wlockstep.
+
 (* block stores never shrink along synchronous rounds; in a lockstep state they are exactly at n *)
 Theorem C06G_height_mono_rounds : forall P, params_ok P -> forall pay fetch R s k,
   preach P s -> honestb P k = true -> height s k <= height (sync_rounds P pay fetch R s) k.
@@ -826,6 +940,35 @@ Proof. exact ex_lockstep. Qed.
 Print Assumptions C06G_example_lockstep.
 
 (* a silent Byzantine leader costs one view: 6 validators, validator 2 Byzantine *)
+(* a weak lockstep state that is not a lockstep state: view 3 of the six-validator network, whose
+   honest leader has the forced re-proposal of block 0 pending (three honest validators voted for
+   it in view 2); the hypotheses of C06G_progress_from_wlockstep hold with nbyz = 0 *)
+Example C06G_example_wlockstep : exists s,
+  preach ex_P6 s /\ headroom ex_P6 s (Z.of_nat 0 + 2) /\ wlockstep ex_P6 ex_pay s 3 0 /\ byz_run ex_P6 3 0 /\
+  fetch_ok_run ex_P6 ex_pay (find_cert ex_P6) s (2 * (0 + 1)) /\
+  (exists h j mv,
+     justification_view (E := unit) true j = Ok mv /\ vnum mv = 3 /\
+     justification_verify (p_g ex_P6) (p_e ex_P6) (p_C ex_P6) j = Ok tt /\
+     get_implied_block (E := unit) true (p_C ex_P6) (p_first ex_P6) j = Ok (0, Some h) /\
+     In {| m_key := cleader (pcfg ex_P6 0) 3; m_sig_ok := true; m_msg := MProposal None j |} (g_soup s) /\
+     ProtocolLiveCommitLock.uniq_prop ex_P6 3 j None (g_soup s)).
+Proof. exact ex_wlockstep. Qed.
+Print Assumptions C06G_example_wlockstep.
+
+(* the hypotheses of C06G_progress_from_mixed hold (nbyz = 0) in the mixed-phase state of
+   C06G_example_view_times_out_mixed *)
+Example C06G_example_progress_from_mixed : exists s,
+  preach ex_P6 s /\ headroom ex_P6 s (Z.of_nat 0 + 4) /\
+  p_first ex_P6 <= 0 /\ unvoted ex_P6 s 1 0 /\ no_proposal ex_P6 s 1 /\ timed_out_light ex_P6 s 1 /\
+  uncertified ex_P6 s 0 /\
+  (forall k, honestb ex_P6 k = true -> tidy_node_b ex_P6 0 (0 + 1) (n_live (g_node s k))) /\
+  (forall h t, honestb ex_P6 h = true -> In {| m_key := h; m_sig_ok := true; m_msg := MTimeout t |} (g_soup s) ->
+     vnum (tview t) = 1 -> tidy_report_b ex_P6 0 (0 + 1) t) /\
+  byz_run ex_P6 (1 + 1) 0 /\ fetch_ok_run ex_P6 ex_pay (find_cert ex_P6) s (2 + 2 * (0 + 1)) /\
+  r_phase (n_live (g_node s 1)) = PTimeout /\ r_phase (n_live (g_node s 4)) = Prepare.
+Proof. exact ex_progress_from_mixed_hyps. Qed.
+Print Assumptions C06G_example_progress_from_mixed.
+
 Example C06G_example_byz_leader :
   params_ok ex_P6 /\
   map (fun r => (map (fun k => r_view (n_live (g_node (sync_rounds ex_P6 ex_pay (find_cert ex_P6) r (ginit ex_P6)) k))) [1; 3; 4; 5; 6],
@@ -843,6 +986,8 @@ Print Assumptions C06G_example_byz_leader.
 (* (c) alignment; and in the form that connects to the proved progress theorem *)
 Definition C06_sync_rounds_align := ProtocolLiveGoals.C06_sync_rounds_align.
 Definition C06_reaches_lockstep := ProtocolLiveGoals.C06_reaches_lockstep.
+(* the weaker form that suffices (C06G_progress_partial_of_reaches_wlockstep) *)
+Definition C06_reaches_wlockstep := ProtocolLiveGoals.C06_reaches_wlockstep.
 (* (d): the first statement is refuted above for R = 4, its first correction (notified leader)
    for R = 3; the statement that holds is C06G_view_commits above *)
 Definition C06_aligned_view_commits := ProtocolLiveGoals.C06_aligned_view_commits.
